@@ -41,7 +41,7 @@ def signature(name):
 
 def classify(pid, v):
     for fid, f in _load().items():
-        if f["property"] != pid:
+        if pid != f.get("property") and pid not in f.get("properties", ()):
             continue
         pred = SIGNATURES.get(f["signature"])
         if pred is None:
@@ -55,3 +55,20 @@ def classify(pid, v):
 # signatures (narrow by construction: triggering condition from the reference
 # side AND the one oracle clause it explains)
 # ---------------------------------------------------------------------------
+
+
+@signature("multigetnext-eomv-before-successor")
+def _sig_multigetnext_cut(v):
+    f = v.get("facts", {})
+    return (
+        v.get("kind") == "successor-missing"
+        and f.get("op", [None])[0] == "multigetnext"
+        and f.get("eomv_before_successor") is True
+        and f.get("perturbation", ["none"])[0] == "none"
+    )
+
+
+@signature("auth-digest-over-reserialised-message")
+def _sig_reserialised(v):
+    f = v.get("facts", {})
+    return f.get("exception") == "AuthenticationError" and f.get("authentic_response_reserialisation_differs") is True
